@@ -224,7 +224,8 @@ def run(prog, rep, tier):
     sv = view(prog, prog.body_key(spd))
     r4.analysed(prog.name(spd))
     snd = [b for b, t in sv.calls(re.compile(r".*SinkExt::send"))]
-    ok = snd and all(any(g[0] == "call" and g[1].endswith("bmp::track_peer_down") and l == {"true"} for g, l, h in flat_guards(sv, b)) for b in snd)
+    sbrs = branches(sv, Renderer(sv, depth=12, through_names=True))      # a hoisted `let was_up = track_peer_down(..)` is looked through
+    ok = snd and all(any(g[0] == "call" and g[1].endswith("bmp::track_peer_down") and l == {"true"} for g, l, h in flat_guards(sv, b, sbrs)) for b in snd)
     if ok:
         r4.ok("send_peer_down: send only when track_peer_down(..) returned true")
     else:
